@@ -453,8 +453,9 @@ func SolveWith(name, body string, timeoutS int, names []string) string {
 		os.WriteFile(file, []byte(sv.pre+body+"(check-sat)\n"), 0o644)
 		argv := sv.argv(file, timeoutS)
 		if name == "prune" && strings.HasPrefix(sv.name, "z3") {
-			// pruning only profits from quick answers: a soft limit in milliseconds on top of -T
-			argv = append(argv[:len(argv)-1], "-t:600", argv[len(argv)-1])
+			// pruning only profits from quick answers; a resource limit (not a time limit) keeps the outcome,
+			// and with it the set of paths and the names of their obligations, the same from run to run
+			argv = append(argv[:len(argv)-1], "rlimit=2000000", argv[len(argv)-1])
 		}
 		out, _ := exec.Command(argv[0], argv[1:]...).CombinedOutput()
 		os.Remove(file)
